@@ -54,6 +54,15 @@ func envU64(name string, def uint64) uint64 {
 }
 
 func main() {
+	// the AWS SDK inside the S3 proxy backend reads AWS_* variables and ~/.aws files: pin them all
+	for _, kv := range os.Environ() {
+		if strings.HasPrefix(kv, "AWS_") {
+			os.Unsetenv(strings.SplitN(kv, "=", 2)[0])
+		}
+	}
+	os.Setenv("AWS_CONFIG_FILE", "/dev/null")
+	os.Setenv("AWS_SHARED_CREDENTIALS_FILE", "/dev/null")
+	os.Setenv("AWS_EC2_METADATA_DISABLED", "true")
 	if len(os.Args) < 2 {
 		fmt.Fprintln(os.Stderr, "usage: vgwsim run|worker|replay|minimise|selftest-determinism ...")
 		os.Exit(2)
